@@ -93,17 +93,29 @@ def obs_space(kind):
     return spaces.Tuple(tuple(ms))
 
 
-def pack_leaf(m, vals):
+def relayout(arr, layout):
+    """the same array (same shape, same elements) with another memory layout: "F" = Fortran-ordered,
+    "S" = a strided, non-contiguous view into a larger buffer"""
+    if layout == "F" and arr.ndim >= 2:
+        return np.asfortranarray(arr)
+    if layout == "S" and arr.ndim >= 1:
+        big = np.zeros(arr.shape + (3,), dtype=arr.dtype)
+        big[..., 1] = arr
+        return big[..., 1]
+    return arr
+
+
+def pack_leaf(m, vals, layout="C"):
     if m["leaf"] == "discrete":
         return int(vals[0])
     dt = np.int64 if m["leaf"] == "multidiscrete" else np.dtype(m["dtype"])
-    return np.array(vals, dtype=dt).reshape(tuple(m["shape"]))
+    return relayout(np.array(vals, dtype=dt).reshape(tuple(m["shape"])), layout)
 
 
-def pack(kind, members):
+def pack(kind, members, layout="C"):
     """flat integer members -> a value of obs_space(kind)"""
     d = describe(kind)
-    vs = [pack_leaf(m, vals) for m, vals in zip(d["members"], members)]
+    vs = [pack_leaf(m, vals, layout) for m, vals in zip(d["members"], members)]
     if d["str"] == "plain":
         return vs[0]
     if d["str"] == "dict":
@@ -149,7 +161,7 @@ class ScriptedEnv(ParallelEnv):
     render_mode = None
 
     def __init__(self, eid=0, nagents=2, lens=(3,), mode="term", leave=None, kind="vector", akind="discrete",
-                 unaligned=False, reversed_out=False, rich_info=False, join=None):
+                 unaligned=False, reversed_out=False, rich_info=False, join=None, layout="C", mixed_types=False):
         self.eid = int(eid)
         self.nagents = int(nagents)
         self.lens = [int(x) for x in lens]
@@ -160,6 +172,8 @@ class ScriptedEnv(ParallelEnv):
         self.unaligned = bool(unaligned)
         self.reversed_out = bool(reversed_out)   # every returned dict lists the agents in reverse order
         self.join = {int(k): int(v) for k, v in (join or {}).items()}   # agent -> step at which it joins the episode
+        self.layout = layout                     # memory layout of the observation arrays handed out ("C", "F", "S")
+        self.mixed_types = bool(mixed_types)     # Python / numpy types of rewards, flags and info tags vary over steps and agents
         self.rich_info = bool(rich_info)         # infos also carry float / bool / None / array / str / nested values
         self.marker = 0                          # plain attribute for get_attr / set_attr
         self.possible_agents = [f"agent_{i}" for i in range(self.nagents)]
@@ -180,10 +194,12 @@ class ScriptedEnv(ParallelEnv):
         return int(agent.split("_")[1])
 
     def _obs(self, a, echo):
-        return pack(self.kind, encode(self.kind, [self.eid, self.base + self.ord, 16 * self.t + a, echo]))
+        return pack(self.kind, encode(self.kind, [self.eid, self.base + self.ord, 16 * self.t + a, echo]), self.layout)
 
     def _info(self, a, first, options=None):
         d = {"tag": 1000 * self.ord + 16 * self.t + a}
+        if self.mixed_types and (self.t + a) % 2:
+            d["tag"] = np.int64(d["tag"])
         if first:
             d["first"] = 1
             if options is not None and "opt" in options:
@@ -241,6 +257,10 @@ class ScriptedEnv(ParallelEnv):
             rew[ag] = 100 * self.t + 10 * a + echo
             term[ag] = bool(et or self.leave.get(a) == self.t)
             trunc[ag] = bool(eu)
+            if self.mixed_types:        # same values, other types
+                rew[ag] = [int, float, np.float32, np.int64][(self.t + a) % 4](rew[ag])
+                term[ag] = [bool, np.bool_][(self.t + a) % 2](term[ag])
+                trunc[ag] = [np.bool_, bool][(self.t + a) % 2](trunc[ag])
             info[ag] = self._info(a, False)
         self.agents = [ag for ag in self.agents if not (term[ag] or trunc[ag])]
         if self.unaligned:
